@@ -201,6 +201,37 @@ Proof.
     + destruct (IH _ _ _ _ E2 Hin) as (c & t & Hev & Hc). exists c, t. split; [right; exact Hev|exact Hc].
 Qed.
 
+(* symbols of different calldata of one path are distinct (the counter only moves forward) *)
+Lemma pstep_next_le : forall s ev, (p_next s <= p_next (fst (pstep s ev)))%nat.
+Proof.
+  intros s ev. destruct ev as [c t| | |k z|n]; cbn [pstep].
+  - unfold create. destruct (encode c [] t (p_next s)) as [[e ds] k'] eqn:E. cbn [fst p_next].
+    exact (inv_le _ _ _ _ _ (encode_inv _ _ _ _ _ _ _ E)).
+  - destruct (gen_branch_conc _ _). cbn. lia.
+  - destruct (gen_extend_conc _ _). cbn. lia.
+  - cbn. lia.
+  - cbn. lia.
+Qed.
+
+Theorem path_symbols_distinct : forall evs s,
+  NoDup (ids (pitems s evs)) /\ forall i, In i (ids (pitems s evs)) -> (p_next s <= i)%nat.
+Proof.
+  induction evs as [|ev evs IH]; intros s; cbn [pitems].
+  - split; [constructor|intros i []].
+  - destruct (IH (fst (pstep s ev))) as [IHn IHr]. pose proof (pstep_next_le s ev) as Hle.
+    rewrite ids_app. destruct ev as [c t| | |k z|n]; cbn [app ids flat_map];
+      try (split; [exact IHn|intros i Hi; apply IHr in Hi; lia]).
+    fold (ids (e_items (fst (fst (create c t (p_next s)))))).
+    unfold create in *. cbn [pstep] in *. unfold create in *.
+    destruct (encode c [] t (p_next s)) as [[e ds] k'] eqn:E. cbn [fst p_next] in *.
+    pose proof (encode_inv _ _ _ _ _ _ _ E) as Hi. split.
+    + apply NoDup_app_intro; [exact (inv_nodup _ _ _ _ _ Hi)|exact IHn|].
+      intros i H1 H2. apply (inv_ids _ _ _ _ _ Hi) in H1. apply IHr in H2. lia.
+    + intros i Hin. apply in_app_or in Hin. destruct Hin as [Hin|Hin].
+      * apply (inv_ids _ _ _ _ _ Hi) in Hin. lia.
+      * apply IHr in Hin. lia.
+Qed.
+
 (* ------------------------------------------------------------------ parse_type: what gets through *)
 
 Lemma parse_str_leaves : forall fuel typ tup t,
